@@ -121,8 +121,18 @@ type whCase struct {
 	cut        int
 }
 
-func whBin(c whCase) *payload.Bin {
-	opener := func(f sts.File) (sts.Readable, error) { return &whReadable{f: f.(*whFile)}, nil }
+func whBin(c whCase) *payload.Bin { return whBinGated(c, nil) }
+
+// whBinGated: gate (if any) is called when the encoder opens its first part - the header has been
+// written by then, the body has not
+func whBinGated(c whCase, gate func()) *payload.Bin {
+	var once sync.Once
+	opener := func(f sts.File) (sts.Readable, error) {
+		if gate != nil {
+			once.Do(gate)
+		}
+		return &whReadable{f: f.(*whFile)}, nil
+	}
 	renamer := func(f sts.File) string { return f.(*whFile).ren }
 	bin := payload.NewBin(1<<40, opener, renamer).(*payload.Bin)
 	for _, f := range c.files {
@@ -218,6 +228,93 @@ func verifWireHTTPCase(w *bufio.Writer, srv *httptest.Server, keeper *whKeeper, 
 		fmt.Fprintf(w, " %s", r)
 	}
 	fmt.Fprintln(w)
+}
+
+// verifWireHTTPGroup: the requests of one sender run CONCURRENTLY through ONE Client (main/client.go
+// hands the one httpClient.Transmit to all sender threads): every member has written its header
+// before any member writes a byte of its body. Each member is reported as an ordinary WH line; what
+// the receiver was handed is attributed by the member's name prefix (part of the names in the line).
+func verifWireHTTPGroup(w *bufio.Writer, srv *httptest.Server, keeper *whKeeper, cs []whCase) {
+	keeper.mu.Lock()
+	keeper.rec = nil
+	keeper.mu.Unlock()
+	u, _ := url.Parse(srv.URL)
+	port, _ := strconv.Atoi(u.Port())
+	cl := &Client{SourceName: "src", TargetHost: u.Hostname(), TargetPort: port, Compression: cs[0].level, Timeout: 10 * time.Second, Protocol: ProtocolHTTP1}
+	// the first request sets the client up (init() is not synchronised: concurrent FIRST requests are
+	// another matter than concurrent requests)
+	warm := whCase{level: cs[0].level, sep: 47, cut: -1, files: []*whFile{{name: "warm/up", hash: fmt.Sprintf("%032x", 1), size: 3, beg: 0, end: 3, seed: 7}}}
+	cl.Transmit(whBin(warm))
+	var arrived sync.WaitGroup
+	arrived.Add(len(cs))
+	// every member has sent its header and stands before its first part; then the bodies go out one
+	// member after the other (requests that overlap in time, not writes that race)
+	release := make([]chan bool, len(cs))
+	finished := make([]chan bool, len(cs))
+	for i := range cs {
+		release[i], finished[i] = make(chan bool), make(chan bool)
+	}
+	go func() {
+		ch := make(chan bool)
+		go func() { arrived.Wait(); close(ch) }()
+		select {
+		case <-ch:
+		case <-time.After(2 * time.Second):
+		}
+		for i := range cs {
+			close(release[i])
+			select {
+			case <-finished[i]:
+			case <-time.After(3 * time.Second):
+			}
+		}
+	}()
+	status := make([]int, len(cs))
+	var wg sync.WaitGroup
+	for i := range cs {
+		wg.Add(1)
+		go func(i int) {
+			defer wg.Done()
+			defer close(finished[i])
+			status[i] = -1
+			_, err := cl.Transmit(whBinGated(cs[i], func() { arrived.Done(); <-release[i] }))
+			switch {
+			case err == nil:
+				status[i] = 200
+			case strings.Contains(err.Error(), "successful part"):
+				status[i] = 206
+			case strings.Contains(err.Error(), "response code:"):
+				fmt.Sscanf(err.Error()[strings.Index(err.Error(), "response code:")+len("response code:"):], "%d", &status[i])
+			}
+		}(i)
+		time.Sleep(2 * time.Millisecond)
+	}
+	wg.Wait()
+	cl.Destroy()
+	time.Sleep(20 * time.Millisecond)
+	keeper.mu.Lock()
+	rec := append([]string{}, keeper.rec...)
+	keeper.mu.Unlock()
+	for i, c := range cs {
+		fmt.Fprintf(w, "WH %d %d %d", c.level, c.sep, len(c.files))
+		for _, f := range c.files {
+			fmt.Fprintf(w, " %s %s %s %s %d %d %d %d %d g%d", gen.Hex(f.name), gen.Hex(f.ren), gen.Hex(f.prev), gen.Hex(f.hash),
+				f.sec, f.nsec, f.size, f.beg, f.end, f.seed)
+		}
+		fmt.Fprintf(w, " %d =", c.cut)
+		var mine []string
+		pre := gen.Hex(fmt.Sprintf("m%d/", i))
+		for _, r := range rec {
+			if strings.HasPrefix(r, pre) {
+				mine = append(mine, r)
+			}
+		}
+		fmt.Fprintf(w, " %d %d", status[i], len(mine))
+		for _, r := range mine {
+			fmt.Fprintf(w, " %s", r)
+		}
+		fmt.Fprintln(w)
+	}
 }
 
 var whAlphabet = []string{"a", "b", "Z", "0", "_", "-", ".", " ", "é", "日", "\U0001F600", "\\", "\"", "<", ">", "&", "'", "\x01", "\n", "\t",
@@ -322,6 +419,23 @@ func TestVerifWireHTTP(t *testing.T) {
 			}
 		}
 		return
+	}
+	// requests in flight at the same time through one Client (2..3 sender threads), every level
+	ng := gen.EnvInt("VERIF_WH_GROUPS", 22)
+	gbase := gen.New(gen.Seed() ^ 0xC13AA)
+	for g := 0; g < ng; g++ {
+		r := gbase.Sub(uint64(g))
+		level := []int{0, -1, 1, 2, 3, 4, 5, 6, 7, 8, 9}[g%11]
+		var cs []whCase
+		for i := 0; i < 2+r.Intn(2); i++ {
+			c := whGen(r)
+			c.level = level
+			for _, f := range c.files {
+				f.name = fmt.Sprintf("m%d/", i) + f.name
+			}
+			cs = append(cs, c)
+		}
+		verifWireHTTPGroup(w, srv, keeper, cs)
 	}
 	n := gen.EnvInt("VERIF_N", 150)
 	base := gen.New(gen.Seed() ^ 0xC13F)
